@@ -246,7 +246,10 @@ HvarRec(h) ==
 
 NoMvar == [present |-> FALSE, regions |-> <<>>, rows |-> <<>>, tags |-> <<>>]
 \* hcld (usWinDescent, unsigned, 200 in the generated fonts) is driven below zero
-MvarTags == <<"xhgt", "hcld", "undo", "hasc", "strs", "hdsc", "hlgp", "hcla", "cpht", "stro", "unds", "hcrs">>
+\* (every value tag of the MVAR chapter that lands in OS/2, hhea or post; the generated fonts have no vhea / gasp)
+MvarTags == <<"xhgt", "hcld", "undo", "hasc", "strs", "hdsc", "hlgp", "hcla", "cpht", "stro", "unds", "hcrs",
+              "hcrn", "hcof", "sbxs", "sbys", "sbxo", "sbyo", "spxs", "spys", "spxo", "spyo">>
+MvarHalf == (Len(MvarTags) + 1) \div 2
 MvarOf(regions) ==
   LET nr == Len(regions)
       Row(j) == CASE j = 1 -> [k \in 1 .. nr |-> 33 * k]
@@ -954,8 +957,9 @@ LayMvar(set, size) == Mvar2(<<P1, M1>>, LayMvarSets[set], size)
 \* MVAR whose records point into two sub-tables
 LayMvar2Subs(size) ==
   [present |-> TRUE, regions |-> <<P1, M1, I1>>,
-   subs |-> <<Sub(<<0, 1>>, [j \in 1 .. 6 |-> MvarRow(j, 2)]), SubLong(<<2, 0>>, [j \in 1 .. 6 |-> MvarRow(j + 6, 2)], 1)>>,
-   recs |-> [k \in 1 .. Len(MvarTags) |-> [tag |-> MvarTags[k], outer |-> (k - 1) \div 6, inner |-> (k - 1) % 6]],
+   subs |-> <<Sub(<<0, 1>>, [j \in 1 .. MvarHalf |-> MvarRow(j, 2)]),
+              SubLong(<<2, 0>>, [j \in 1 .. Len(MvarTags) - MvarHalf |-> MvarRow(j + MvarHalf, 2)], 1)>>,
+   recs |-> [k \in 1 .. Len(MvarTags) |-> [tag |-> MvarTags[k], outer |-> (k - 1) \div MvarHalf, inner |-> (k - 1) % MvarHalf]],
    recSize |-> size]
 LayCase(var, hvar, mvar, lay) == MkCase2("lay", var, <<Ax1>>, NoAvar, LayGlyphs, hvar, mvar, lay, Users1)
 HvBase == HvMap1(3, 0, TRUE)
